@@ -17,6 +17,7 @@ sys.path.insert(0, os.path.dirname(os.path.abspath(__file__)))
 import emit
 import universe_a
 import universe_m
+import universe_b
 
 HARNESS = os.path.join(os.path.dirname(os.path.dirname(os.path.abspath(__file__))), 'harness')
 NSHARDS = 8
@@ -99,6 +100,15 @@ def main():
     write_if_changed(os.path.join(HARNESS, 'um', 'Cargo.toml'), crate_toml('um', ['model', 'rt', 'ud']))
     write_if_changed(os.path.join(HARNESS, 'um', 'src', 'lib.rs'), src)
     print('universe M: %d mutant definitions, %d designated pairs, %d target types' % (len(mdefs), len(mpairs), len(ulist)))
+    # universe B (fresh per seed; C05)
+    seed = int(os.environ.get('VERIF_SEED', '1'))
+    nb = 80 if os.environ.get('VERIF_TIER') == 'thorough' else 28
+    bdefs, broots = universe_b.build(seed, nb)
+    src = emit.PRELUDE + 'use ud::*;\n\n' + emit.emit_modules(bdefs) + '\n\n' + emit.emit_roots(broots, prefix='B', table='ROOTS') \
+        + '\n\npub mod asserts {\n    use super::*;\n' + emit.emit_eps_asserts(broots) + '\n}\n'
+    write_if_changed(os.path.join(HARNESS, 'ub', 'Cargo.toml'), crate_toml('ub', ['model', 'rt', 'ud']))
+    write_if_changed(os.path.join(HARNESS, 'ub', 'src', 'lib.rs'), src)
+    print('universe B (seed %d): %d definitions, %d roots' % (seed, len(bdefs), len(broots)))
     print('universe A: %d definitions, %d roots in %d shards' % (len(defs), len(roots), NSHARDS))
 
 
